@@ -254,6 +254,54 @@ func buildEntries(w *World) []*Entry {
 			return verdict(err)
 		}})
 
+	// ---- sequences of blocks: a first block with an unusual (but accepted) maxHeightGenerated by the generator of the
+	// next height, honest blocks of the other validators, then the same generator's next block with a claimed
+	// maxHeightGenerated around the first one's height.  Input: two bytes selecting the two claimed values.
+	add(&Entry{Name: "consensus.process-sequence", Net: true, Tags: []string{"args.blockseq"}, Box: 30 * time.Second, AllocConst: 1 << 30,
+		Fn: func(in []byte) string {
+			if len(in) != 2 {
+				return "reject"
+			}
+			base := n.Tip().Header.Height
+			defer func() {
+				for n.Tip().Header.Height > base {
+					if e2 := n.Ex.VerifDeleteBlock(n.Tip(), false); e2 != nil {
+						panic("harness: cannot restore the tip: " + e2.Error())
+					}
+				}
+			}()
+			ht := base + 1
+			h2 := ht + nVal
+			pick := func(sel byte, opts []uint32) uint32 { return opts[int(sel)%len(opts)] }
+			m1 := pick(in[0], []uint32{ht, ht - 1, ht - nVal, 0, ht + 1, ht - 2})
+			m2 := pick(in[1], []uint32{ht, ht - 1, ht + 1, h2, h2 - 1, 0, m1})
+			put := func(h uint32, mhg *uint32) bool {
+				o, err := n.Observe()
+				if err != nil {
+					panic(err)
+				}
+				c := w.cand(h, o.Cert, "empty", 0)
+				if mhg != nil {
+					c.Mhg = *mhg
+				}
+				b := n.Build(c)
+				n.Ex.VerifProcess(b, nextPeer()) //nolint:errcheck // the tip tells
+				return string(n.Tip().Header.ID) == string(b.Header.ID)
+			}
+			if !put(ht, &m1) {
+				return "first-rejected"
+			}
+			for h := ht + 1; h < h2; h++ {
+				if !put(h, nil) {
+					return "middle-rejected"
+				}
+			}
+			if !put(h2, &m2) {
+				return "second-rejected"
+			}
+			return "applied"
+		}})
+
 	// ---- RPC: handlers on payloads, and the request / response stream handlers on raw stream bytes
 	rpc := func(name string, h p2p.RPCHandler, tags []string, procedure string) {
 		add(&Entry{Name: name, Net: true, Tags: tags, AllocConst: 4 << 20, Fn: func(in []byte) string {
